@@ -439,8 +439,11 @@ def check(prop, tier, seed):
         "wall_s": round(time.time() - t0, 3),
         "violations": len(violations),
     }
-    os.makedirs(os.path.join(VERIF, "evidence"), exist_ok=True)
-    with open(os.path.join(VERIF, "evidence", prop + ".json"), "w") as f:
+    # evidence describes a run against /repo itself; a development run pointed at a scratch copy (PYVC_REPO) must not
+    # overwrite it
+    evdir = os.path.join(VERIF, "evidence") if os.path.realpath(frontend.REPO) == "/repo" else os.path.join(_work(), "evidence-scratch")
+    os.makedirs(evdir, exist_ok=True)
+    with open(os.path.join(evdir, prop + ".json"), "w") as f:
         json.dump(ev, f, indent=1, default=str)
 
     # ---- report
